@@ -891,6 +891,17 @@ setup(int scen, int ndds, int cache, int blk, int nblk, int nslots, int hole)
         return -1;
     if (put_plain(1, 3))
         return -1;
+    if (hole == 2) {
+        /* start state "a descriptor block is the last thing in the file": aliases (descriptors without data of their own)
+           until a new block has been started, then the file is closed and opened again for update */
+        for (int j = 0; j <= ndds; j++)
+            if (Hdupdd(fid, TAG + 7, (uint16)(300 + j), TAG, ref_of(1)) == FAIL)
+                return -1;
+        if (Hclose(fid) == FAIL || (fid = Hopen(PATH, DFACC_RDWR, 0)) == FAIL)
+            return -1;
+        if (!cache)
+            Hcache(fid, 0);
+    }
     M.nops = 0;
     if (observe("start state"))
         return -1;
@@ -969,6 +980,14 @@ C01_main(const char *tier, const char *replay)
                         c->depth  = nslots == 1 ? depth + 1 : depth;
                         c->dev    = thorough ? 2 : 1;
                     }
+                if (scen == SC_PLAIN || scen == SC_DUPDEL) {
+                    /* the same scenario on a file that ends in a descriptor block */
+                    cfg_t *c = &cfgs[ncfg++];
+                    c->scen = scen, c->ndds = nd[ci], c->cache = ca[ci];
+                    c->blk = 2, c->nblk = 1, c->hole = 2, c->nslots = 1;
+                    c->depth = depth + 1;
+                    c->dev   = thorough ? 2 : 1;
+                }
             }
         int rot = mc_seed() % ncfg;
         for (int i = 0; i < ncfg; i++)
